@@ -109,6 +109,7 @@ func (fr *frame) execInstr(in ssa.Instruction, st *State, reach string, b *ssa.B
 					if stt.Field(li).Name() == lockField {
 						lk := &Val{lv: fr.ptrLV(pv, pt).extendField(li, cont, stt.Field(li).Type())}
 						nv.guard = u.define("guard", "Int", fr.lockID(lk, st))
+						nv.guardObj = pv.t
 					}
 				}
 			}
@@ -173,8 +174,13 @@ func (fr *frame) execInstr(in ssa.Instruction, st *State, reach string, b *ssa.B
 		fr.storeSiteAsserts(x, st, reach)
 		if av.guard != "" && !fr.pure {
 			h := u.heapGet(st, "GH:locks", "(Array Int Int)")
+			cond := fmt.Sprintf("(= (select %s %s) 2)", h, av.guard)
+			if av.guardObj != "" && u.alloc0 != "" {
+				// ... or while the object is still private to the invocation that allocated it (a constructor's literal)
+				cond = fmt.Sprintf("(or %s (>= %s %s))", cond, av.guardObj, u.alloc0)
+			}
 			u.oblige(fr.obName("guard-write", fr.describe(x.Addr, 0)), "lock", []string{"C20"}, reach,
-				fmt.Sprintf("(= (select %s %s) 2)", h, av.guard), fr.pos(x.Pos()), "guarded field is written only under the write lock")
+				cond, fr.pos(x.Pos()), "guarded field is written only under the write lock")
 		}
 		if fr.pure {
 			if lv.kind == lvPure {
